@@ -37,7 +37,7 @@ Proof. exact (fun dcf rackf g ks en co => pick_matches_sound dcf rackf g ks en c
 (* the model of fallback() (the whole plan whenever pick() yields nothing, and the plan's tail
    otherwise) is accepted for EVERY oracle: every rotation index, every shuffle permutation *)
 Theorem C05_fallback_accepted : forall dcf rackf (g : ring N) keyspaces enabled connected shf pol rq,
-  sorted_strict g ->
+  sorted_weak g ->
   (forall k s, ks_lookup keyspaces k = Some s -> nts_keys_ok s) ->
   forall cho shuf, (forall site l, Permutation (shuf site l) l) ->
   plan_matches dcf rackf g keyspaces enabled connected pol rq
@@ -46,7 +46,7 @@ Proof. exact fallback_matches. Qed.
 
 (* hence C05_nodup, C05_filter, C05_locality, C05_complete, C05_order, C05_lwt for it *)
 Theorem C05_fallback_properties : forall dcf rackf (g : ring N) keyspaces enabled connected shf pol rq,
-  sorted_strict g ->
+  sorted_weak g ->
   (forall k s, ks_lookup keyspaces k = Some s -> nts_keys_ok s) ->
   forall cho shuf, (forall site l, Permutation (shuf site l) l) ->
   let p := map fst (fallback dcf rackf g keyspaces enabled connected shf pol rq cho shuf) in
@@ -75,7 +75,7 @@ Proof. exact fallback_structure. Qed.
 (* ---- the whole Plan (pick() first, then fallback() without the picked target) ------------
    for EVERY oracle: every index drawn from 0..len, every shuffle permutation *)
 Theorem C05_pick_accepted : forall dcf rackf (g : ring N) keyspaces enabled connected shf pol rq,
-  sorted_strict g ->
+  sorted_weak g ->
   (forall k s, ks_lookup keyspaces k = Some s -> nts_keys_ok s) ->
   forall cho, (forall site len, (0 < len)%nat -> (cho site len < len)%nat) ->
   pick_matches dcf rackf g keyspaces enabled connected pol rq
@@ -86,7 +86,7 @@ Proof.
 Qed.
 
 Theorem C05_plan_accepted : forall dcf rackf (g : ring N) keyspaces enabled connected shf pol rq,
-  sorted_strict g ->
+  sorted_weak g ->
   (forall k s, ks_lookup keyspaces k = Some s -> nts_keys_ok s) ->
   forall cho shuf, (forall site l, Permutation (shuf site l) l) ->
   (forall site len, (0 < len)%nat -> (cho site len < len)%nat) ->
@@ -97,7 +97,7 @@ Proof. exact plan_matches_model. Qed.
 (* C05_nodup, C05_filter, C05_locality, C05_complete, C05_order, C05_lwt of the design, as one
    statement about the model's Plan *)
 Theorem C05_plan_properties : forall dcf rackf (g : ring N) keyspaces enabled connected shf pol rq,
-  sorted_strict g ->
+  sorted_weak g ->
   (forall k s, ks_lookup keyspaces k = Some s -> nts_keys_ok s) ->
   forall cho shuf, (forall site l, Permutation (shuf site l) l) ->
   (forall site len, (0 < len)%nat -> (cho site len < len)%nat) ->
@@ -109,7 +109,7 @@ Proof. exact plan_properties. Qed.
 
 (* LWT: the replica part of the plan is the same sequence for all oracles *)
 Theorem C05_lwt : forall dcf rackf (g : ring N) keyspaces enabled connected shf pol rq,
-  sorted_strict g ->
+  sorted_weak g ->
   (forall k s, ks_lookup keyspaces k = Some s -> nts_keys_ok s) ->
   forall cho shuf, (forall site l, Permutation (shuf site l) l) ->
   (forall site len, (0 < len)%nat -> (cho site len < len)%nat) ->
@@ -121,7 +121,7 @@ Proof. exact plan_lwt_deterministic. Qed.
 
 (* where the plan's nodes come from *)
 Theorem C05_plan_nodes : forall dcf rackf (g : ring N) keyspaces enabled connected shf pol rq,
-  sorted_strict g ->
+  sorted_weak g ->
   (forall k s, ks_lookup keyspaces k = Some s -> nts_keys_ok s) ->
   forall cho shuf, (forall site l, Permutation (shuf site l) l) ->
   (forall site len, (0 < len)%nat -> (cho site len < len)%nat) ->
@@ -148,9 +148,9 @@ Definition ex_pol := {| pol_pref := Some (PDcRack 1 1); pol_token_aware := true;
 Definition ex_rq (lwt : bool) := {| rq_token := Some 160; rq_ks := Some 0%N; rq_lwt := lwt; rq_pref := PAny |}.
 
 Example C05_ex_hyps :
-  sorted_strict ex_g /\ (forall k s, ks_lookup ex_ks k = Some s -> nts_keys_ok s).
+  sorted_weak ex_g /\ (forall k s, ks_lookup ex_ks k = Some s -> nts_keys_ok s).
 Proof.
-  split; [apply sorted_strictb_spec; vm_compute; reflexivity|].
+  split; [apply sort_ring_sorted|].
   intros k s. cbn. destruct (N.eqb 0 k); [|discriminate]. intros [= <-]. cbn.
   repeat constructor; cbn; intuition congruence.
 Qed.
